@@ -240,6 +240,16 @@ NumberFormat = simple_family(
     ["Idempotent", "WellShaped"])
 
 
+Formula = simple_family(
+    ["C09"], "Formula.tla", "Formula.cfg", {}, "formula",
+    ["trees over the operators of every precedence level (6 comparisons, &, + -, * /, ^), unary minus, postfix %, SUM(x,1), with number / decimal number / string / boolean / reference leaves: depth 1 over all leaves, depth 2 over every (parent, child, side) combination",
+     "the engine's Node is mapped structurally to the spec's tree (there is no parenthesis node); an implicit intersection the engine marks automatic is ignored",
+     "quick: 5 language/locale pairs + one mixed pair chosen by the seed; thorough: all 30 pairs; the internal, English and xlsx printers do not depend on the pair and are checked once per tree",
+     "-(x%) is not generated (the parser reads -x% as (-x)%; both have the same value); trees the parser rejects on their fully parenthesised text would be skipped and counted (none today)"],
+    "for every tree: the real parser on Full(t) and Min(t) must give t; each of the four printers' output must parse back to t; distinct_nontrivial = distinct (parent, child, side) classes whose minimal text differs from the fully parenthesised one.",
+    ["MinRoundTrip", "FullRoundTrip"])
+
+
 def replay_case(prop, path):
     with open(path) as f:
         payload = json.load(f)
@@ -258,4 +268,4 @@ def _wrap(cls, name):
     return (name, M)
 
 
-TABLE = {"C21": _wrap(Calendar, "calendar"), "C22": _wrap(Grid, "grid"), "C23": _wrap(Lang, "lang"), "C34": _wrap(F4, "f4"), "C19": _wrap(NumberInput, "numinput"), "C20": _wrap(NumberFormat, "numformat")}
+TABLE = {"C21": _wrap(Calendar, "calendar"), "C22": _wrap(Grid, "grid"), "C23": _wrap(Lang, "lang"), "C34": _wrap(F4, "f4"), "C19": _wrap(NumberInput, "numinput"), "C20": _wrap(NumberFormat, "numformat"), "C09": _wrap(Formula, "formula")}
